@@ -130,7 +130,7 @@ def render(doc: Doc) -> str:
 
 class DocGen:
     def __init__(self, seed: int, *, comments=True, wrappers=True, max_lets=3, attrpaths=True, nested=True, quoted=True, inherits=True, refs=False,
-                 nested_families=True, with_ident_env=True, lets_anywhere=True, let_before_call=True):
+                 nested_families=True, with_ident_env=True, lets_anywhere=True, let_before_call=True, trailing_comments=True):
         self.r = random.Random(seed)
         self.comments = comments
         self.wrappers = wrappers
@@ -144,6 +144,7 @@ class DocGen:
         self.with_ident_env = with_ident_env
         self.lets_anywhere = lets_anywhere
         self.let_before_call = let_before_call
+        self.trailing_comments = trailing_comments
         self.n = 0
         self._depth0 = True
 
@@ -207,7 +208,7 @@ class DocGen:
                 if r.random() < 0.15:
                     it.blank_before = True
         s = SetNode(items, rec=(r.random() < 0.15))
-        if self.comments and items and r.random() < 0.08:
+        if self.comments and self.trailing_comments and items and r.random() < 0.08:
             s.trailing.append(self.comment())
         return s
 
